@@ -132,12 +132,13 @@ func (s *stats) classes() []string {
 type mctx struct {
 	env      *menv
 	sc       *slotCtx
-	inComp   int  // include nesting depth
-	compLoop bool // inside a v-for of the component body (since the component started)
-	inSupply bool // evaluating supplied content
-	pageLoop bool // inside a v-for of the page
-	inLayout bool // evaluating the layout file itself (not a component it includes)
-	inst     int  // number of the component instance being evaluated
+	inComp   int            // include nesting depth
+	compLoop bool           // inside a v-for of the component body (since the component started)
+	inSupply bool           // evaluating supplied content
+	pageLoop bool           // inside a v-for of the page
+	inLayout bool           // evaluating the layout file itself (not a component it includes)
+	inst     int            // number of the component instance being evaluated
+	names    map[string]int // slot names of the component being evaluated + names supplied to it
 }
 
 type model struct {
@@ -367,7 +368,10 @@ func (m *model) evalSlot(n Node, cx mctx) ([]*hx.N, error) {
 	if label == "" {
 		label = "default"
 	}
-	m.st.add("slot:" + label)
+	_ = label
+	for _, cl := range nameClasses(name, cx.names) {
+		m.st.add(cl)
+	}
 	if cx.inSupply {
 		m.st.add("slot-forwarded-inside-supplied-content")
 	}
@@ -388,6 +392,9 @@ func (m *model) evalSlot(n Node, cx mctx) ([]*hx.N, error) {
 		return m.eval(n.Kids, cx)
 	}
 	m.st.add("filled:" + sup.form)
+	if sup.form == "long" && name != "" && strings.ContainsRune("v-slot:", rune(name[0])) {
+		m.st.add("filled:long-form-name-starting-with-a-letter-of-v-slot")
+	}
 	for _, kv := range n.Bind {
 		if !kv.O || (sup.varN == "" && len(sup.destr) == 0) {
 			continue
@@ -433,6 +440,7 @@ func (m *model) evalSlot(n Node, cx mctx) ([]*hx.N, error) {
 		inComp:   cx.inComp,
 		inSupply: true,
 		inst:     cx.inst,
+		names:    cx.names,
 	}
 	return m.eval(sup.kids, cx2)
 }
@@ -550,7 +558,14 @@ func (m *model) evalInc(n Node, cx mctx) ([]*hx.N, error) {
 		}
 	}
 	m.insts++
-	return m.eval(cp.Nodes, mctx{env: &menv{vars: vars}, sc: sc, inComp: cx.inComp + 1, pageLoop: cx.pageLoop, inst: m.insts})
+	names := map[string]int{}
+	for k, v := range uses {
+		names[k] = v
+	}
+	for k := range sc.by {
+		names[k]++
+	}
+	return m.eval(cp.Nodes, mctx{env: &menv{vars: vars}, sc: sc, inComp: cx.inComp + 1, pageLoop: cx.pageLoop, inst: m.insts, names: names})
 }
 
 // countSlots counts the <slot> elements of a component body by name (not those written inside
